@@ -345,6 +345,18 @@ fn run_discipline(ctx: &Ctx, rep: &mut Report) {
             rep.count(&format!("m1.call.{name}"));
         }
         let _ = format!("{:?}", cf.version());
+        // formatting the compound file itself, and the internal-iteration adapters with
+        // look-ups on the same file inside the closure (the closure must not run under
+        // the lock)
+        let _ = format!("{:?}", cf);
+        cf.walk().for_each(|e| {
+            let _ = cf.exists(e.path());
+            let _ = cf.entry(e.path()).map(|x| x.len());
+        });
+        let _ = cf.read_root_storage().filter(|e| cf.is_stream(e.path())).count();
+        let _ = cf.walk().fold(0u64, |acc, e| acc + cf.entry(e.path()).map(|x| x.len()).unwrap_or(0));
+        let _ = cf.walk().map(|e| cf.is_storage(e.path())).last();
+        rep.count("m1.closure_scripts");
         // every handle operation
         for p in &streams {
             if let Ok(mut s) = cf.open_stream(p) {
